@@ -9,7 +9,7 @@ package message1_1
 //@       result0.IsRestart() == isRestart && result0.IsNew() == !isRestart && result0.IsPull() == isPull && result0.BaseCid() == baseCid &&
 //@       result0.Selector().0 == selector && !result0.IsPaused() && !result0.IsCancel() && !result0.IsUpdate() && !result0.IsRestartExistingChannelRequest()
 //@   ensures [voucher] baseCid != cid.Undef && voucher != nil ==> result0.VoucherType() == (*voucher).Type && result0.Voucher().0 == (*voucher).Voucher
-//@   ensures [no-voucher] baseCid != cid.Undef && voucher == nil ==> result0.VoucherType() == datatransfer.EmptyTypeIdentifier && result0.EmptyVoucher()
+//@   ensures [no-voucher] baseCid != cid.Undef && voucher == nil ==> result0.VoucherType() == datatransfer.EmptyTypeIdentifier
 //@   ensures [pure] untouched
 
 //@ func message1_1.RestartExistingChannelRequest {C12,C10}
